@@ -109,6 +109,11 @@ inductive ROp
   | hole
   /-- read result number `i` -/
   | ask (i : Nat) (sel : Option Int)
+  /-- the caller writes to memory that is its own: it overwrites the edge list it passed to `NewX(V, edges…)`, it
+  overwrites a slice a query returned as a copy (`Edges()`, `To(v)`, `Components()`, `Order()`, …), it appends to the
+  slice `Adj(v)` returned (an append never writes inside the slice).  None of this is an operation on a graph or on
+  a result: every object and every result stays as it is. -/
+  | callerWrite
 
 /-- the objects and the results a client holds -/
 structure Session where
@@ -131,6 +136,7 @@ def Session.step (s : Session) : ROp → Session × Outcome Answer
     match s.kept[i]? with
     | some k => (s, k.r.ask k.o.g.n sel)
     | .none => (s, .ok .unit)
+  | .callerWrite => (s, .ok .unit)
 
 def Session.run (s : Session) : List ROp → Session × List (Outcome Answer)
   | [] => (s, [])
